@@ -1,6 +1,7 @@
 package props
 
 import (
+	"os"
 	"fmt"
 	"io"
 	"math/rand"
@@ -31,10 +32,17 @@ import (
 //      empty records, garbage after the ServerHello).
 // ---------------------------------------------------------------------------------
 
-const (
-	c33ClientDeadline = 4 * time.Second
-	c33Limit          = 3 * c33ClientDeadline
-)
+const c33ClientDeadline = 4 * time.Second
+
+// c33Limit: bounded-progress limit.  Under the race detector (the thorough tier's extra
+// pass) everything is 5-15x slower, so the limit is stretched and the decompression bombs
+// are kept small: the pass is there for the detector's reports, not for timing.
+var c33Limit = func() time.Duration {
+	if os.Getenv("VERIF_RACE_PASS") == "1" {
+		return 20 * c33ClientDeadline
+	}
+	return 3 * c33ClientDeadline
+}()
 
 var hangsSeen atomic.Int64 // shared by C33 and C34 (separate processes)
 
@@ -401,7 +409,12 @@ func zstdHostileFrames(rg *rand.Rand) []byte {
 	}
 }
 
-var bombSizes = []int{1 << 20, 1<<24 - 1, 1 << 24, 40 << 20}
+var bombSizes = func() []int {
+	if os.Getenv("VERIF_RACE_PASS") == "1" {
+		return []int{1 << 18, 1 << 20}
+	}
+	return []int{1 << 20, 1<<24 - 1, 1 << 24, 40 << 20}
+}()
 
 var bombCache sync.Map // "alg/n" -> []byte
 
